@@ -56,6 +56,8 @@ def scenarios(tier):
     out.append({'name': 'derived face-face table (make_face_face_array, loop invariant)', 'fn': 'scn_make_face_face', 'kwargs': {}})
     for maxn in (3, 4):
         out.append({'name': f'derived edge-face table (make_edge_face_array, loop invariant)[faces of up to {maxn} edges]', 'fn': 'scn_make_edge_face', 'kwargs': {'maxn': maxn}})
+    for sized in (True, False):
+        out.append({'name': f'edge_count[edge dimension {"with" if sized else "without"} a size in the dataset]', 'fn': 'scn_edge_count', 'kwargs': {'sized': sized}})
     for n in range(0, 8):
         out.append({'name': f'utils.pairwise[{n} entries]', 'fn': 'scn_pairwise', 'kwargs': {'n': n}})
     for maxn, fill, si in ((4, 'int_fill', 1), (5, 'nan', 0), (5, 'int_fill', 0), (6, 'nan', 1), (3, 'none', 1)):
@@ -510,3 +512,19 @@ def scn_pairwise(c, n):
     xs = [c.fresh_int(f'x{k}') for k in range(n)]
     r = expect_ok(c, 'pairwise returns', lambda: list(it.iterate(call(it, f, list(xs)))))
     c.check(f'pairwise of {n} entries: the {max(n - 1, 0)} consecutive pairs in order', len(r) == max(n - 1, 0) and all(tuple(p)[0] is xs[k] and tuple(p)[1] is xs[k + 1] for k, p in enumerate(r)))
+
+
+def scn_edge_count(c, sized):
+    """Mesh2DTopology.edge_count: the size of the edge dimension when the dataset has one; for an edge dimension that no variable is defined
+    on, the number of rows of the (derived) edge-node table - whatever the numbers of nodes and faces are (a mesh may have holes, several
+    parts, unused nodes)."""
+    it = new_interp(use=[FILL_KEY])
+    ds = inputs.ugrid(c, edges='dimension', edge_data=sized)
+    topo = it.instantiate(cls(it, 'emsarray.conventions.ugrid', 'Mesh2DTopology'), [ds], {})
+    rows = sym_size(c, 'derived_edges', 0)
+    topo.attrs['edge_node_array'] = NDArray((rows, 2), sym_array(c, 'derived_edge_node', (rows, 2), 'int', INT32).fn, INT32)     # callee contract: one row per edge
+    n = expect_ok(c, 'edge_count returns', lambda: attr(it, topo, 'edge_count'))
+    if sized:
+        c.check('edge_count is the size of the edge dimension', s_eq(n, ds.info['nedge']))
+    else:
+        c.check('edge_count is the number of rows of the edge-node table (one row per edge)', s_eq(n, rows))
